@@ -344,3 +344,15 @@ Proof.
     + destruct pr; reflexivity.
     + split; [reflexivity|]. split; [apply default_agood|]. cbn [fst]. discriminate.
 Qed.
+
+(* the model's scanner fuel (= width) is never what stops the scan: the Rust `while` has no fuel *)
+Lemma avt_scan_stops w r fuel : forall x rc, (w - x <= fuel)%nat ->
+  ((fst (avt_scan fuel w r x rc) + AVT_LOOKAHEAD <? w)%nat &&
+   cell_eqb (row_get r (fst (avt_scan fuel w r x rc))) (row_get r (S (fst (avt_scan fuel w r x rc))))) = false.
+Proof.
+  induction fuel as [|fuel IH]; intros x rc H; cbn [avt_scan].
+  - cbn [fst]. replace (x + AVT_LOOKAHEAD <? w)%nat with false; [reflexivity|]. symmetry. apply Nat.ltb_ge. lia.
+  - destruct ((x + AVT_LOOKAHEAD <? w)%nat && cell_eqb (row_get r x) (row_get r (S x))) eqn:E.
+    + apply IH. apply andb_prop in E as (E1 & _). apply Nat.ltb_lt in E1. lia.
+    + cbn [fst]. exact E.
+Qed.
